@@ -39,6 +39,362 @@ def lean_text(s: str) -> str:
     return "[" + ", ".join(str(ord(c)) for c in s) + "]"
 
 
+# ---------------------------------------------------------------------------
+# straight-line code of format_int_roman / format_int_alpha  ->  Gen/LabelCode.lean
+#
+# Shape accepted (anything else is Untranslatable):
+#     assert <test>; <prologue>; while <cond>: <body>; <epilogue>; return "".join(result)
+#     statements = assignments, divmod, result: List[str] = [], result.insert/append/reverse, if/elif/else
+# Emitted per function: `_pre` (assert), `_init` (prologue: the state the loop starts in), `_cond` (while
+# test), `_body` (ONE pass through the loop body, state in -> state out, IndexError as an error), `_post`
+# (epilogue and the joined result).
+# Python rebinding = Lean `let` shadowing; statements after an `if` are copied into both branches.
+
+TABLES = {"ROMAN_ONES": "text", "ROMAN_FIVES": "text"}      # list of str: element kind
+CMP = {ast.Eq: "=", ast.NotEq: "≠", ast.Lt: "<", ast.LtE: "≤", ast.Gt: ">", ast.GtE: "≥"}
+
+
+def is_ascii_lowercase(e: ast.expr) -> bool:
+    return (isinstance(e, ast.Attribute) and e.attr == "ascii_lowercase" and isinstance(e.value, ast.Name)
+            and e.value.id == "string")
+
+
+class Body:
+    def __init__(self, state):
+        self.state = state                   # names of the state handed on, in output order
+        self.final = None                    # text of the last expression (default: the state tuple)
+        self.kinds = {"value": "int"}
+        self.tmp = 0
+
+    def expr(self, e: ast.expr, binds):
+        """-> (lean text, kind); list/str subscripts are hoisted into `binds` (they can raise)."""
+        if isinstance(e, ast.Constant) and isinstance(e.value, bool):
+            return ("true" if e.value else "false"), "bool"
+        if isinstance(e, ast.Constant) and isinstance(e.value, int):
+            return (str(e.value) if e.value >= 0 else f"({e.value})"), "int"
+        if isinstance(e, ast.Name):
+            if e.id not in self.kinds:
+                raise P.Untranslatable(f"unknown name {e.id}")
+            return e.id, self.kinds[e.id]
+        if isinstance(e, ast.Call) and isinstance(e.func, ast.Name) and e.func.id == "len" and len(e.args) == 1 \
+                and is_ascii_lowercase(e.args[0]):
+            return "(ascii_lowercase.length : Int)", "int"
+        if isinstance(e, ast.Subscript):
+            idx, k = self.expr(e.slice, binds)
+            if k != "int":
+                raise P.Untranslatable("subscript is not an integer")
+            self.tmp += 1
+            t = f"t{self.tmp}"
+            if isinstance(e.value, ast.Name) and e.value.id in TABLES:
+                binds.append((t, f"pyIndex {e.value.id} ({idx})"))
+            elif is_ascii_lowercase(e.value):
+                binds.append((t, f"pyStrIndex ascii_lowercase ({idx})"))
+            else:
+                raise P.Untranslatable("subscript of an unknown table")
+            return t, "text"
+        if isinstance(e, ast.BinOp):
+            a, ka = self.expr(e.left, binds)
+            b, kb = self.expr(e.right, binds)
+            if isinstance(e.op, ast.Mult) and ka == "text" and kb == "int":
+                return f"(pyRepeat {a} ({b}))", "text"
+            if ka == kb == "int" and type(e.op) in (ast.Add, ast.Sub, ast.Mult):
+                op = {ast.Add: "+", ast.Sub: "-", ast.Mult: "*"}[type(e.op)]
+                return f"({a} {op} {b})", "int"
+            raise P.Untranslatable("binary operator outside the subset")
+        if isinstance(e, ast.Compare):
+            parts = []
+            left, kl = self.expr(e.left, binds)
+            for op, right in zip(e.ops, e.comparators):
+                r, kr = self.expr(right, binds)
+                if type(op) not in CMP or kl != "int" or kr != "int":
+                    raise P.Untranslatable("comparison outside the subset")
+                parts.append(f"decide ({left} {CMP[type(op)]} {r})")
+                left = r
+            return "(" + " && ".join(parts) + ")", "bool"
+        if isinstance(e, ast.IfExp):
+            c, kc = self.expr(e.test, binds)
+            a, ka = self.expr(e.body, binds)
+            b, kb = self.expr(e.orelse, binds)
+            if kc != "bool" or ka != kb:
+                raise P.Untranslatable("conditional expression outside the subset")
+            return f"(if {c} = true then {a} else {b})", ka
+        raise P.Untranslatable(f"expression {ast.dump(e)[:60]} outside the subset")
+
+    @staticmethod
+    def wrap(binds, line, ind):
+        return [f"{ind}(({rhs}).bind fun {t} =>" for t, rhs in binds], line, ")" * len(binds)
+
+    def block(self, stmts, ind):
+        if not stmts:
+            return [f"{ind}Except.ok ({self.final or ', '.join(self.state)})"]
+        s, rest = stmts[0], stmts[1:]
+        binds = []
+        if isinstance(s, ast.If):
+            c, kc = self.expr(s.test, binds)
+            if kc != "bool" or binds:
+                raise P.Untranslatable("if test outside the subset")
+            saved = dict(self.kinds)
+            a = self.block(list(s.body) + list(rest), ind + "  ")
+            self.kinds = dict(saved)
+            b = self.block(list(s.orelse) + list(rest), ind + "  ")
+            self.kinds = saved
+            return [f"{ind}(if {c} = true then"] + a + [f"{ind}else"] + b + [f"{ind})"]
+        if isinstance(s, ast.Assign) and len(s.targets) == 1 and isinstance(s.targets[0], ast.Tuple):
+            names = [t.id for t in s.targets[0].elts if isinstance(t, ast.Name)]
+            v = s.value
+            if not (len(names) == 2 and isinstance(v, ast.Call) and isinstance(v.func, ast.Name)
+                    and v.func.id == "divmod" and len(v.args) == 2):
+                raise P.Untranslatable("tuple assignment is not divmod")
+            a, ka = self.expr(v.args[0], binds)
+            b, kb = self.expr(v.args[1], binds)
+            if ka != "int" or kb != "int" or binds:
+                raise P.Untranslatable("divmod arguments")
+            self.kinds[names[0]] = self.kinds[names[1]] = "int"
+            lines = [f"{ind}let q_ := pyDiv {a} {b}; let r_ := pyMod {a} {b};",
+                     f"{ind}let {names[0]} := q_; let {names[1]} := r_;"]
+            return lines + self.block(rest, ind)
+        if isinstance(s, ast.Assign) and len(s.targets) == 1 and isinstance(s.targets[0], ast.Name):
+            v, k = self.expr(s.value, binds)
+            name = s.targets[0].id
+            pre, line, close = self.wrap(binds, f"{ind}let {name} := {v};", ind)
+            self.kinds[name] = k
+            return pre + [line] + self.block(rest, ind) + ([ind + close] if close else [])
+        if isinstance(s, ast.AnnAssign) and isinstance(s.target, ast.Name) and s.target.id == "result" \
+                and isinstance(s.value, ast.List) and not s.value.elts:
+            self.kinds["result"] = "list"
+            return [f"{ind}let result : List CodePoints := [];"] + self.block(rest, ind)
+        if isinstance(s, ast.AugAssign) and isinstance(s.target, ast.Name) and type(s.op) in (ast.Add, ast.Sub):
+            v, k = self.expr(s.value, binds)
+            name = s.target.id
+            if k != "int" or self.kinds.get(name) != "int":
+                raise P.Untranslatable("augmented assignment outside the subset")
+            op = "+" if isinstance(s.op, ast.Add) else "-"
+            pre, line, close = self.wrap(binds, f"{ind}let {name} := {name} {op} {v};", ind)
+            return pre + [line] + self.block(rest, ind) + ([ind + close] if close else [])
+        if isinstance(s, ast.Expr) and isinstance(s.value, ast.Call) and isinstance(s.value.func, ast.Attribute) \
+                and isinstance(s.value.func.value, ast.Name) and s.value.func.value.id == "result":
+            m, args = s.value.func.attr, s.value.args
+            if m == "insert" and len(args) == 2:
+                k, kk = self.expr(args[0], binds)
+                x, kx = self.expr(args[1], binds)
+                if kk != "int" or kx != "text":
+                    raise P.Untranslatable("result.insert arguments")
+                line = f"{ind}let result := pyInsert result ({k}) {x};"
+            elif m == "reverse" and not args:
+                line = f"{ind}let result := result.reverse;"
+            elif m == "append" and len(args) == 1:
+                x, kx = self.expr(args[0], binds)
+                if kx != "text":
+                    raise P.Untranslatable("result.append argument")
+                line = f"{ind}let result := result ++ [{x}];"
+            else:
+                raise P.Untranslatable(f"result.{m}")
+            pre, line, close = self.wrap(binds, line, ind)
+            return pre + [line] + self.block(rest, ind) + ([ind + close] if close else [])
+        raise P.Untranslatable(f"statement {ast.dump(s)[:60]} outside the subset")
+
+
+def is_join_result(e) -> bool:
+    return (isinstance(e, ast.Call) and isinstance(e.func, ast.Attribute) and e.func.attr == "join"
+            and isinstance(e.func.value, ast.Constant) and e.func.value.value == "" and len(e.args) == 1
+            and isinstance(e.args[0], ast.Name) and e.args[0].id == "result")
+
+
+def numeral_function(mod, name: str, state, extras):
+    """state = the variables the loop body works on; extras = set before the loop, used after it."""
+    fn = P.find_function(mod, name)
+    body = [s for s in fn.body if not (isinstance(s, ast.Expr) and isinstance(s.value, ast.Constant)
+                                       and isinstance(s.value.value, str))]
+    if [a.arg for a in fn.args.args] != ["value"]:
+        raise P.Untranslatable(f"{name}: parameters")
+    if not isinstance(body[0], ast.Assert):
+        raise P.Untranslatable(f"{name}: no leading assert")
+    loops = [k for k, s in enumerate(body) if isinstance(s, ast.While)]
+    if len(loops) != 1 or body[loops[0]].orelse:
+        raise P.Untranslatable(f"{name}: not exactly one while loop")
+    w = loops[0]
+    if not (isinstance(body[-1], ast.Return) and is_join_result(body[-1].value)):
+        raise P.Untranslatable(f"{name}: tail is not `return \"\".join(result)`")
+    types = {"value": "Int", "index": "Int", "thousands": "Int", "result": "List CodePoints"}
+    b = Body(extras + state)
+    pre, k = b.expr(body[0].test, [])
+    init = b.block(body[1:w], "  ")                       # prologue: the state the loop starts in
+    missing = [v for v in extras + state if v not in b.kinds]
+    if missing:
+        raise P.Untranslatable(f"{name}: {missing} not set before the loop")
+    b.kinds["remainder"] = "int"
+    b.state = state
+    cond, kc = b.expr(body[w].test, [])
+    lines = b.block(list(body[w].body), "  ")
+    b.state, b.final = ["result"], "result.flatten"
+    post = b.block(body[w + 1:-1], "  ")                  # epilogue, then "".join(result)
+
+    def sig(vs):
+        return " ".join(f"({v} : {types[v]})" for v in vs), " × ".join(types[v] for v in vs)
+    p_init, r_init = sig(extras + state)
+    p_body, r_body = sig(state)
+    p_post, _ = sig(extras + ["result"])
+    out = [f"/-- `assert` at the head of `{name}` -/\ndef {name}_pre (value : Int) : Bool := {pre}\n\n",
+           f"/-- the statements of `{name}` in front of the loop: the state the loop starts in -/\n"
+           f"def {name}_init (value : Int) : Except PyErr ({r_init}) :=\n" + "\n".join(init) + "\n\n",
+           f"/-- the `while` test of `{name}` -/\ndef {name}_cond (value : Int) : Bool := {cond}\n\n",
+           f"/-- ONE pass through the body of the `while` loop of `{name}` -/\n"
+           f"def {name}_body {p_body} : Except PyErr ({r_body}) :=\n" + "\n".join(lines) + "\n\n",
+           f"/-- the statements of `{name}` after the loop and the returned `\"\".join(result)` -/\n"
+           f"def {name}_post {p_post} : Except PyErr CodePoints :=\n" + "\n".join(post) + "\n\n"]
+    return "".join(out)
+
+
+# ---------------------------------------------------------------------------
+# pdfdocument.PageLabels: the style dispatch of _format_page_label and the constants / arithmetic of labels
+
+def page_label_chain(doc_mod):
+    fn = P.find_function(doc_mod, "PageLabels._format_page_label")
+    if [a.arg for a in fn.args.args] != ["value", "style"]:
+        raise P.Untranslatable("_format_page_label: parameters")
+    body = [s for s in fn.body if not (isinstance(s, ast.Expr) and isinstance(s.value, ast.Constant))]
+    if not (len(body) == 2 and isinstance(body[0], ast.If) and isinstance(body[1], ast.Return)
+            and isinstance(body[1].value, ast.Name) and body[1].value.id == "label"):
+        raise P.Untranslatable("_format_page_label: not `if ...: label = ...` followed by `return label`")
+
+    def label_expr(stmts, allow_log):
+        st = list(stmts)
+        if allow_log and len(st) == 2 and isinstance(st[0], ast.Expr) and isinstance(st[0].value, ast.Call) \
+                and isinstance(st[0].value.func, ast.Attribute) and isinstance(st[0].value.func.value, ast.Name) \
+                and st[0].value.func.value.id == "log":
+            st = st[1:]
+        if not (len(st) == 1 and isinstance(st[0], ast.Assign) and len(st[0].targets) == 1
+                and isinstance(st[0].targets[0], ast.Name) and st[0].targets[0].id == "label"):
+            raise P.Untranslatable("_format_page_label: branch is not `label = <expr>`")
+        return st[0].value
+
+    def numeral(e):
+        """-> (formatter, upper)"""
+        up = False
+        if isinstance(e, ast.Call) and isinstance(e.func, ast.Attribute) and e.func.attr == "upper" and not e.args:
+            up, e = True, e.func.value
+        if isinstance(e, ast.Call) and isinstance(e.func, ast.Name) and len(e.args) == 1 \
+                and isinstance(e.args[0], ast.Name) and e.args[0].id == "value" and not e.keywords:
+            f = {"str": "str", "format_int_roman": "roman", "format_int_alpha": "alpha"}.get(e.func.id)
+            if f:
+                return f, up
+        raise P.Untranslatable("_format_page_label: numeral expression outside the subset")
+
+    def const_text(e):
+        if isinstance(e, ast.Constant) and isinstance(e.value, str):
+            return lean_text(e.value)
+        raise P.Untranslatable("_format_page_label: label of the None / else branch is not a string literal")
+
+    node, chain, none_label = body[0], [], None
+    while True:
+        t = node.test
+        if not (isinstance(t, ast.Compare) and len(t.ops) == 1 and isinstance(t.ops[0], ast.Is)
+                and isinstance(t.left, ast.Name) and t.left.id == "style"):
+            raise P.Untranslatable("_format_page_label: test is not `style is ...`")
+        c = t.comparators[0]
+        if isinstance(c, ast.Constant) and c.value is None:
+            if chain or none_label is not None:
+                raise P.Untranslatable("_format_page_label: `style is None` is not the first test")
+            none_label = const_text(label_expr(node.body, False))
+        elif isinstance(c, ast.Call) and isinstance(c.func, ast.Name) and c.func.id == "LIT" and len(c.args) == 1 \
+                and isinstance(c.args[0], ast.Constant) and isinstance(c.args[0].value, str):
+            f, up = numeral(label_expr(node.body, False))
+            chain.append((c.args[0].value.encode("latin-1"), f, up))
+        else:
+            raise P.Untranslatable("_format_page_label: test is not `style is None` / `style is LIT(\"x\")`")
+        if len(node.orelse) == 1 and isinstance(node.orelse[0], ast.If):
+            node = node.orelse[0]
+            continue
+        else_label = const_text(label_expr(node.orelse, True))
+        break
+    if none_label is None:
+        raise P.Untranslatable("_format_page_label: no `style is None` branch")
+    rows = ", ".join("([%s], PyNumeral.%s, %s)" % (", ".join(str(b) for b in k), f, "true" if up else "false")
+                     for k, f, up in chain)
+    return ("/-- `PageLabels._format_page_label`: the if/elif chain `style is LIT(name)` in source order:\n"
+            "(name, numeral function applied to `value`, followed by `.upper()`) -/\n"
+            f"def format_page_label_chain : List (List UInt8 × PyNumeral × Bool) := [{rows}]\n\n"
+            f"/-- label of the `style is None` branch -/\ndef format_page_label_none : CodePoints := {none_label}\n\n"
+            f"/-- label of the final `else` branch (unknown style, a warning is logged) -/\n"
+            f"def format_page_label_else : CodePoints := {else_label}\n\n")
+
+
+def labels_constants(doc_mod):
+    fn = P.find_function(doc_mod, "PageLabels.labels")
+    defaults = {}
+    for n in ast.walk(fn):
+        if isinstance(n, ast.Call) and isinstance(n.func, ast.Attribute) and n.func.attr == "get" \
+                and isinstance(n.func.value, ast.Name) and n.func.value.id == "label_dict" and n.args \
+                and isinstance(n.args[0], ast.Constant) and isinstance(n.args[0].value, str):
+            key = n.args[0].value
+            d = P.literal(n.args[1]) if len(n.args) > 1 else None
+            if key in defaults and defaults[key] != d:
+                raise P.Untranslatable(f"labels: two defaults for {key}")
+            defaults[key] = d
+    if set(defaults) != {"S", "P", "St"}:
+        raise P.Untranslatable(f"labels: label dictionary keys read are {sorted(defaults)}, expected S, P, St")
+    if defaults["S"] is not None or not isinstance(defaults["P"], bytes) \
+            or not (isinstance(defaults["St"], int) and not isinstance(defaults["St"], bool)):
+        raise P.Untranslatable("labels: defaults of S / P / St outside the subset")
+    exprs = {}
+    for n in ast.walk(fn):
+        if isinstance(n, ast.Assign) and len(n.targets) == 1 and isinstance(n.targets[0], ast.Name) \
+                and n.targets[0].id in ("range_length", "values"):
+            exprs.setdefault(n.targets[0].id, []).append(n.value)
+        if isinstance(n, ast.AnnAssign) and isinstance(n.target, ast.Name) and n.value is not None \
+                and n.target.id in ("range_length", "values"):
+            exprs.setdefault(n.target.id, []).append(n.value)
+    ren = {"end": "end_", "start": "start", "first_value": "first_value", "range_length": "range_length"}
+
+    def iexpr(e):
+        if isinstance(e, ast.Name) and e.id in ren:
+            return ren[e.id]
+        if isinstance(e, ast.Constant) and isinstance(e.value, int) and not isinstance(e.value, bool):
+            return str(e.value)
+        if isinstance(e, ast.BinOp) and type(e.op) in (ast.Add, ast.Sub):
+            return f"({iexpr(e.left)} {'+' if isinstance(e.op, ast.Add) else '-'} {iexpr(e.right)})"
+        raise P.Untranslatable("labels: integer expression outside the subset")
+    if len(exprs.get("range_length", [])) != 1:
+        raise P.Untranslatable("labels: range_length is not assigned exactly once")
+    rl = iexpr(exprs["range_length"][0])
+    rng = [v for v in exprs.get("values", []) if isinstance(v, ast.Call) and isinstance(v.func, ast.Name)
+           and v.func.id == "range" and len(v.args) == 2]
+    cnt = [v for v in exprs.get("values", []) if isinstance(v, ast.Call) and isinstance(v.func, ast.Attribute)
+           and v.func.attr == "count" and len(v.args) == 1 and isinstance(v.args[0], ast.Name)
+           and v.args[0].id == "first_value"]
+    if len(rng) != 1 or len(cnt) != 1 or len(exprs["values"]) != 2:
+        raise P.Untranslatable("labels: values is not itertools.count(first_value) / range(a, b)")
+    return ("/-- `label_dict.get(\"St\", <default>)` in `PageLabels.labels` -/\n"
+            f"def labels_default_St : Int := {defaults['St']}\n\n"
+            "/-- `label_dict.get(\"P\", <default>)` -/\n"
+            f"def labels_default_P : List UInt8 := {P.lean_bytes(defaults['P'])}\n\n"
+            "/-- `range_length = ...` -/\n"
+            f"def labels_range_length (start end_ : Int) : Int := {rl}\n\n"
+            "/-- `values = range(...)` of a range that is not the last one -/\n"
+            f"def labels_values (first_value range_length : Int) : List Int := "
+            f"pyRange {iexpr(rng[0].args[0])} {iexpr(rng[0].args[1])}\n\n")
+
+
+def generate_code(lean_dir: str, mod):
+    import string
+    out = [P.HEADER.format(src="pdfminer/utils.py", ns="LabelCode")
+           .replace("import PdfVerif.Model.Prelude",
+                    "import PdfVerif.Model.LabelsPy\nimport PdfVerif.Gen.LabelTables")]
+    out.append("open PdfVerif.LabelsPy PdfVerif.Gen.LabelTables\n\n")
+    out.append("/-- `string.ascii_lowercase` (standard library constant, read at generation time) -/\n"
+               "def ascii_lowercase : CodePoints := " + lean_text(string.ascii_lowercase) + "\n\n")
+    out.append(numeral_function(mod, "format_int_roman", ["value", "index", "result"], ["thousands"]))
+    out.append(numeral_function(mod, "format_int_alpha", ["value", "result"], []))
+    doc_mod = P.parse_file("pdfminer/pdfdocument.py")
+    out.append("/-! ### pdfminer/pdfdocument.py, class PageLabels -/\n\n")
+    out.append(page_label_chain(doc_mod))
+    out.append(labels_constants(doc_mod))
+    out.append("end PdfVerif.Gen.LabelCode\n")
+    path = os.path.join(lean_dir, "PdfVerif", "Gen", "LabelCode.lean")
+    P.write_if_changed(path, "".join(out))
+    return path
+
+
 def generate(lean_dir: str):
     mod = P.parse_file("pdfminer/utils.py")
     out = [P.HEADER.format(src="pdfminer/utils.py", ns="LabelTables")]
@@ -52,4 +408,4 @@ def generate(lean_dir: str):
     out.append("end PdfVerif.Gen.LabelTables\n")
     path = os.path.join(lean_dir, "PdfVerif", "Gen", "LabelTables.lean")
     P.write_if_changed(path, "".join(out))
-    return [path]
+    return [path, generate_code(lean_dir, mod)]
